@@ -13,10 +13,11 @@ import GoDebian.Drv.BuildOrder
 import GoDebian.Drv.Clearsign
 import GoDebian.Drv.Upload
 import GoDebian.Drv.Base
+import GoDebian.Drv.Accessors
 
 open GoDebian GoDebian.Drv
 
-def handlers : List Handler := [versionHandler, dependencyHandler, depSpecHandler, deb822Handler, codecHandler, debHandler, changelogHandler, hashioHandler, buildOrderHandler, clearsignHandler, uploadHandler, baseHandler]
+def handlers : List Handler := [versionHandler, dependencyHandler, depSpecHandler, deb822Handler, codecHandler, debHandler, changelogHandler, hashioHandler, buildOrderHandler, clearsignHandler, uploadHandler, baseHandler, accessorsHandler]
 
 def dispatch (line : String) : String :=
   match (line.splitOn " ").filter (· ≠ "") with
